@@ -18,6 +18,12 @@ TSin == << U(<<115>>), U(<<115, 105>>), U(<<115, 105, 110>>), U(<<115, 105, 110,
            K(<<69>>), K(<<101>>), K(<<80, 73>>), K(<<960>>), B(<<43>>, 0, TRUE) >>
 ASin == {115, 105, 110, 104, 69, 101, 80, 73, 960, 52, 32, 40, 43}   \* s i n h E e P I pi 4 ' ' ( +
 
+\* an alphabetic BINARY operator whose name is a proper prefix of a unary operator and of a constant: d (binary), db (unary),
+\* dbl (constant).  A binary name matches as a prefix without looking at the next character, the longer names only if they
+\* are not continued: `dbly` is `d` followed by the variable `bly`.
+TPre == << B(<<100>>, 10, FALSE), U(<<100, 98>>), K(<<100, 98, 108>>), D(<<45>>, 50, FALSE), B(<<43>>, 0, TRUE) >>
+APre == {100, 98, 108, 120, 49, 32, 40, 45}                       \* d b l x 1 ' ' ( -
+
 \* call form material: alphabetic binaries f g (and the symbolic *), unary u, comma and parentheses
 TCall == << B(<<102>>, 0, FALSE), B(<<103>>, 50, TRUE), B(<<42>>, 50, TRUE), U(<<117>>), D(<<45>>, 0, FALSE) >>
 ACall == {102, 103, 42, 117, 45, 49, 120, 40, 41, 44, 32}         \* f g * u - 1 x ( ) , ' '
